@@ -316,12 +316,14 @@ fn perturb(r: &mut StdRng, conds: &Sx, hashes: &[Vec<u8>]) -> Sx {
     Sx::list_tail(cs, tail)
 }
 
-fn fp_cases(c: &Value, fo: &mut FpOut<'_>) {
+fn fp_cases(c: &Value, fo: &mut FpOut<'_>, index: usize, both_forks: bool) {
     let consts = Consts::from_doms(std::array::from_fn(|i| vec![101 + i as u8; 32]));
     let subj = |conds: &Value| SpendIn { parent: from_jbytes(&c["parent1"]), salt: from_jbytes(&c["salt1"]), amount: bignat_to_u128(&c["amt1"]) as u64, conds: Sx::from_json(conds) };
     let funder = SpendIn { parent: from_jbytes(&c["parent2"]), salt: from_jbytes(&c["salt2"]), amount: bignat_to_u128(&c["amt2"]) as u64, conds: Sx::nil() };
-    for fork in [vec![], vec!["COST_CONDITIONS".to_string()]] {
-        fo.pair(&[subj(&c["c1"]), funder.clone()], &[subj(&c["c2"]), funder.clone()], &fork, &consts, "mc");
+    for (k, fork) in [vec![], vec!["COST_CONDITIONS".to_string()]].into_iter().enumerate() {
+        if both_forks || index % 2 == k {
+            fo.pair(&[subj(&c["c1"]), funder.clone()], &[subj(&c["c2"]), funder.clone()], &fork, &consts, "mc");
+        }
     }
 }
 
@@ -481,14 +483,16 @@ struct FfIn {
 
 const FUNDER_PARENT: [u8; 32] = [0x77; 32];
 const FUNDER_PH: [u8; 32] = [0x78; 32];
-const FUNDER_AMT: u64 = 1_000_000_000_000_000;
+const FUNDER_AMT: u64 = u64::MAX;
 
 /// the output of a puzzle run as a one-spend bundle (plus a funder so that value conservation is
 /// not what decides) through parse_spends with the mempool visitor
 fn parse_output(out: &Sx, coin: &CoinIn, consts: &Consts) -> Value {
     let sp = Sx::list(vec![Sx::A(coin.parent.clone()), Sx::A(coin.ph.clone()), Sx::uint(coin.amt as u128), out.clone()]);
+    // two funders (the second one's parent is the funder puzzle hash), see Funders(e) in Trace_Mempool.tla
     let funder = Sx::list(vec![Sx::A(FUNDER_PARENT.to_vec()), Sx::A(FUNDER_PH.to_vec()), Sx::uint(FUNDER_AMT as u128), Sx::nil()]);
-    let tree = Sx::list(vec![Sx::list(vec![sp, funder])]);
+    let funder2 = Sx::list(vec![Sx::A(FUNDER_PH.to_vec()), Sx::A(FUNDER_PH.to_vec()), Sx::uint(FUNDER_AMT as u128), Sx::nil()]);
+    let tree = Sx::list(vec![Sx::list(vec![sp, funder, funder2])]);
     run_parse_spends(&tree, ConsensusFlags::DONT_VALIDATE_SIGNATURE, BLOCK_MAX, 0, true, consts)
 }
 
@@ -556,7 +560,7 @@ fn ff_case(c: &Value, modsx: &Sx, consts: &Consts) -> Value {
         coin: CoinIn::from_json(&c["coin"]),
         nc: CoinIn::from_json(&c["nc"]),
         np: CoinIn::from_json(&c["np"]),
-        label: c["label"].as_str().unwrap_or("").to_string(),
+        label: c["label"].as_array().map(|a| a.iter().filter_map(|x| x.as_str()).collect::<Vec<_>>().join("+")).unwrap_or_default(),
         src: "mc".to_string(),
     };
     ff_event(&i, consts)
@@ -616,6 +620,11 @@ fn ff_variants(r: &mut StdRng, base: &FfIn, n: usize, consts: &Consts, out: &mut
                         let which = r.random_range(0..2usize);
                         let mut paths = Vec::new();
                         atom_paths(&f[which], &mut Vec::new(), &mut paths);
+                        // list terminators are mutated rarely (ignored tails are a known finding, C19_TAIL)
+                        let non_term: Vec<Vec<bool>> = paths.iter().filter(|p| p.last() == Some(&false) || p.is_empty()).cloned().collect();
+                        if !non_term.is_empty() && r.random_range(0..12) > 0 {
+                            paths = non_term;
+                        }
                         let p = paths[r.random_range(0..paths.len())].clone();
                         let mut rr = r.clone();
                         f[which] = replace_at(&f[which], &p, &mut |x| match x {
@@ -706,8 +715,9 @@ pub fn record(args: &Args) {
     if part == "fp" {
         let mut fo = FpOut { out: &mut out, seen: HashSet::new(), pairs: 0, sbs: 0 };
         if let Some(cases) = args.get("cases") {
-            for c in read_ndjson(cases) {
-                fp_cases(&c, &mut fo);
+            let both = args.u64("both-forks", 0) == 1;
+            for (i, c) in read_ndjson(cases).iter().enumerate() {
+                fp_cases(c, &mut fo, i, both);
             }
         }
         fp_random(&mut r, &mut fo, args.u64("n", 0));
